@@ -67,6 +67,43 @@ func «FN»(x *«TY», p «PTY») {
 }
 `
 
+// files whose ONLY reference to the type is one spelling (so that the once-per-file codes cannot be carried by a
+// neighbouring spelling on the same line)
+const c13OnlyTmpl = `package u
+
+import (
+	«IMPORTS»
+)
+
+func «FN»(p «PTY») { // ONLY-PARAM
+	p.F = 3 // ONLY-ASSIGN
+	p.M() // ONLY-MCALL
+}
+`
+
+type c13Only struct {
+	file, fn, imports, pty string
+}
+
+var c13Onlys = []c13Only{
+	{"only_direct.go", "OnlyDirect", `"zzmod/d"`, "*d.T"},
+	{"only_ptralias3.go", "OnlyPtrAlias3", `"zzmod/al"`, "al.PT"},
+	{"only_ptrtoalias3.go", "OnlyPtrToAlias3", `"zzmod/al"`, "*al.DT"},
+	{"only_chainp.go", "OnlyChainP", `"zzmod/al2"`, "al2.ChainP"},
+	{"only_ptrtochain.go", "OnlyPtrToChain", `"zzmod/al2"`, "*al2.Chain"},
+	{"only_farptr.go", "OnlyFarPtr", `_ "zzmod/d"`, "FarPtr"},
+	{"only_ptrtofar.go", "OnlyPtrToFar", `_ "zzmod/d"`, "*FarAlias"},
+	{"only_parenptr.go", "OnlyParenPtr", `"zzmod/d"`, "*(d.T)"},
+}
+
+func c13OnlySrc(v c13Only) string {
+	s := c13OnlyTmpl
+	s = replaceAll(s, "«IMPORTS»", v.imports)
+	s = replaceAll(s, "«FN»", v.fn)
+	s = replaceAll(s, "«PTY»", v.pty)
+	return s
+}
+
 type c13Variant struct {
 	file, fn, imports, decls, ty, pty, lty string
 }
@@ -123,6 +160,9 @@ func ZZC13Spelling() {
 	for _, v := range c13Variants {
 		files = append(files, nd.File{Pkg: "zzmod/u", Name: v.file, Src: c13Src(v)})
 	}
+	for _, v := range c13Onlys {
+		files = append(files, nd.File{Pkg: "zzmod/u", Name: v.file, Src: c13OnlySrc(v)})
+	}
 	prog := nd.LoadProgram(files, holes)
 	cfg := config.Default()
 	rd := Analyze(prog, cfg, "zzmod/d", Facts{}, "imm", "ctor", "tonl", "pkgo")
@@ -156,6 +196,15 @@ func ZZC13Spelling() {
 		exp = append(exp,
 			Expect{f, nd.LineOf(src, "func "+v.fn), "TONL01", tonl},
 			Expect{f, nd.LineOf(src, firstRef), "PKGO01", pkgo},
+		)
+	}
+	for _, v := range c13Onlys {
+		src := c13OnlySrc(v)
+		f := "/zz/zzmod/u/" + v.file
+		exp = append(exp,
+			Expect{f, nd.LineOf(src, "ONLY-PARAM"), "TONL01", tonl},
+			Expect{f, nd.LineOf(src, "ONLY-PARAM"), "PKGO01", pkgo},
+			Expect{f, nd.LineOf(src, "ONLY-ASSIGN"), "IMM01", imm},
 		)
 	}
 	// the file that only declares the aliases references d.T there: PKGO01 once for that file
